@@ -513,7 +513,7 @@ def agree_plan(rng, thorough):
             elif (m, n) == (2, 2) or (wt == big and (m, n) in ((1, 2), (2, 3))):
                 combos = allc
             elif allc is not None:
-                combos = rng.sample(allc, {(1, 2): 2, (2, 3): 4, (3, 3): 3, (2, 4): 8 if wt == big else 3}[(m, n)])
+                combos = rng.sample(allc, {(1, 2): 2, (2, 3): 3, (3, 3): 2, (2, 4): 6 if wt == big else 2}[(m, n)])
             else:
                 combos = []
                 for _ in range(24 if thorough and n <= 7 else (8 if thorough else 2)):
@@ -613,7 +613,7 @@ def run(replay=None):
     else:
         for k, (m, n, wt, srt, combos) in enumerate(agree_plan(rng, thorough)):
             ajobs.append((seed0 * 1000 + k, m, n, wt, srt, combos, str(k)))
-        budget = 60 if thorough else 16
+        budget = 60 if thorough else 13
         nslots = 3
         for k, (m, n, holders, srt, wt) in enumerate(plan(rng, thorough)):
             W = len(holders)
